@@ -31,6 +31,7 @@ package pubsubcoreapi
 //@   ensures err == nil ==> (forall x Str :: inList(joining, x) <==> (inList(p.members, x) && !inList(M0, x)))
 //@   ensures err == nil ==> (forall x Str :: inList(leaving, x) <==> (inList(M0, x) && !inList(p.members, x)))
 //@   ensures err == nil ==> noDup(joining) && noDup(leaving)
+//@   ensures err == nil ==> p.members == all
 
 // WatchMessages (the forwarding goroutine): a message whose sender is the local peer is never forwarded;
 // every forwarded event carries exactly the bytes of the message just received.
